@@ -120,6 +120,57 @@ def _resolve_name(n: ast.Name):
     return None
 
 
+def _element_of(n: ast.Name):
+    """A name bound by `for n in X` / a comprehension over X, where X (resolved) is a comprehension or display whose elements all
+    have one form -> that element expression."""
+    p, child = getattr(n, "_parent", None), n
+    while p is not None:
+        gens = []
+        if isinstance(p, (ast.ListComp, ast.SetComp, ast.GeneratorExp, ast.DictComp)):
+            gens = [(g.target, g.iter) for g in p.generators]
+        elif isinstance(p, ast.For) and child is not p.iter:
+            gens = [(p.target, p.iter)]
+        for tgt, it in gens:
+            if isinstance(tgt, ast.Name) and tgt.id == n.id:
+                src = it
+                if isinstance(src, ast.Name):
+                    src = _resolve_name(src)
+                while isinstance(src, ast.Call) and call_name(src) in ("list", "tuple") and len(src.args) == 1:
+                    src = src.args[0]
+                if isinstance(src, (ast.ListComp, ast.GeneratorExp)):
+                    return src.elt
+                if isinstance(src, (ast.List, ast.Tuple)) and src.elts and len({norm(e) for e in src.elts}) == 1:
+                    return src.elts[0]
+                return None
+        if isinstance(p, (ast.FunctionDef, ast.Lambda)):
+            return None
+        p, child = getattr(p, "_parent", None), p
+    return None
+
+
+def _argument_of(n: ast.Name):
+    """A parameter of a module-level function all of whose call sites (in its module) pass the same expression -> that expression."""
+    from .sem import bind_args
+    f = _enclosing_def(n)
+    if f is None or n.id not in [a.arg for a in f.args.args + f.args.kwonlyargs]:
+        return None
+    mod = f
+    while getattr(mod, "_parent", None) is not None:
+        mod = mod._parent
+    if getattr(f, "_parent", None) is not mod:
+        return None
+    vals = []
+    for c in ast.walk(mod):
+        if isinstance(c, ast.Call) and call_name(c) == f.name:
+            b = bind_args(f, c)
+            if b is None or n.id not in b:
+                return None
+            vals.append(b[n.id])
+    if not vals or len({norm(v) for v in vals}) != 1:
+        return None
+    return vals[0]
+
+
 def segments(expr: ast.AST, index_name: str | None, depth=0) -> list[tuple]:
     """Flatten an index expression into segments:
     ('scalar', text) ('zero',) ('idx', which) ('lower',) ('other', text)"""
@@ -142,6 +193,8 @@ def segments(expr: ast.AST, index_name: str | None, depth=0) -> list[tuple]:
         for a, b in ((l, r), (r, l)):
             if isinstance(a, ast.Tuple) and len(a.elts) == 1 and isinstance(a.elts[0], ast.Constant) and a.elts[0].value == 0:
                 return [("zero",)]
+            if isinstance(a, ast.Tuple) and len(a.elts) == 1 and isinstance(a.elts[0], ast.Constant) and isinstance(a.elts[0].value, int):
+                return [("nonzero", norm(expr))]
         return [("other", norm(expr))]
     if isinstance(expr, ast.Call) and call_name(expr) == "tuple" and len(expr.args) == 1:
         inner = expr.args[0]
@@ -154,6 +207,9 @@ def segments(expr: ast.AST, index_name: str | None, depth=0) -> list[tuple]:
         if expr.id == index_name:
             return [("idx", "all")]
         r = _resolve_name(expr)
+        if r is not None:
+            return segments(r, index_name, depth + 1)
+        r = _element_of(expr) or _argument_of(expr)
         if r is not None:
             return segments(r, index_name, depth + 1)
         return [("other", expr.id)]
@@ -281,6 +337,9 @@ def rule_definition_time_lazy(rep: Report, repo: Repo):
                     cls = order_part(segs)
                     n += 1
                     inst = f"{mod}::{top.name} `{norm(node)[:70]}`"
+                    if cls == "unknown" and any(s_[0] == "other" for s_ in segs) and not any(s_[0] == "nonzero" for s_ in segs):
+                        # the index is built from something the rule cannot follow: nothing is known about the order it reads
+                        raise AnalysisError(R, f"{inst}: the index `{norm(node.slice)[:60]}` is not resolved ({segs})")
                     rep.check(cls == "zero", R, inst + " reads only the zeroth order at definition time",
                               f"order part classified {cls!r} from {segs}", repo.loc(mod, node))
     rep.floor(R, "definition-time subscripts of a BlockSeries", n, 8)
@@ -494,14 +553,22 @@ def rule_taylor(rep: Report, repo: Repo):
     ok = norm(subs[0].func.value) == f"{DER}[{oi}]" and zero_map(subs[0].args[0])
     rep.check(ok, R, "_sympy_to_BlockSeries::op_eval evaluates the derivative at symbols = 0",
               norm(subs[0]) if subs else "missing", loc(o))
-    mono = [n for n in own_nodes(o) if isinstance(n, ast.ListComp) or isinstance(n, ast.GeneratorExp)]
-    ok = False
-    for m in mono:
-        g = m.generators[0]
-        if isinstance(g.iter, ast.Call) and call_name(g.iter) == "zip" and [norm(a) for a in g.iter.args] == ["symbols", oi] \
-                and isinstance(m.elt, ast.BinOp) and isinstance(m.elt.op, ast.Pow) and isinstance(g.target, ast.Tuple):
-            s, p = (norm(e) for e in g.target.elts)
-            ok = norm(m.elt.left) == s and norm(m.elt.right) == p
+    # the factors of the monomial, as (target, iterable, element): a comprehension, or a list filled by an appending loop
+    from .sem import list_built_by_loop as _lbl
+    cands = [(m.generators[0].target, m.generators[0].iter, m.elt) for m in own_nodes(o)
+             if isinstance(m, (ast.ListComp, ast.GeneratorExp)) and len(m.generators) == 1 and not m.generators[0].ifs
+             and isinstance(m.elt, ast.BinOp) and isinstance(m.elt.op, ast.Pow)]
+    for acc_ in {norm(c.func.value) for c in own_nodes(o) if isinstance(c, ast.Call) and isinstance(c.func, ast.Attribute) and c.func.attr == "append"}:
+        built = _lbl(o.body, acc_)
+        if built is not None and len(built[2]) == 1 and not built[2][0][0] and isinstance(built[2][0][1], ast.BinOp) and isinstance(built[2][0][1].op, ast.Pow):
+            cands.append((built[0], built[1], built[2][0][1]))
+    if len(cands) != 1:
+        raise AnalysisError(R, f"op_eval: the factors symbol**order of the monomial were not found as one comprehension / one appending loop ({len(cands)} candidates)")
+    tgt_, it_, elt_ = cands[0]
+    if not (isinstance(it_, ast.Call) and call_name(it_) == "zip" and len(it_.args) == 2 and isinstance(tgt_, ast.Tuple) and len(tgt_.elts) == 2):
+        raise AnalysisError(R, f"op_eval: the monomial iterates `{norm(it_)[:60]}`: not understood")
+    s_, p_ = (norm(e) for e in tgt_.elts)
+    ok = [norm(a) for a in it_.args] == ["symbols", oi] and norm(elt_.left) == s_ and norm(elt_.right) == p_
     rep.check(ok, R, "_sympy_to_BlockSeries::op_eval multiplies back the monomial prod symbols[k]**index[k]",
               "position-wise pairing of symbols and orders", loc(o))
     # every order is answered from the derivative: no path of op_eval may declare a coefficient absent without computing it
